@@ -533,6 +533,9 @@ class Type1TagMemoryReader(object):
     def _read_from_tag(self, stop):
         if len(self) < 120:
             read_all_data_response = self._tag.read_all()
+            if len(read_all_data_response) < 2:
+                log.debug("read all response without header rom")
+                raise Type1TagCommandError(RESPONSE_ERROR)
             self._header_rom = read_all_data_response[0:2]
             self._data_from_tag[0:] = read_all_data_response[2:]
             self._data_in_cache[0:] = self._data_from_tag[0:]
